@@ -294,3 +294,6 @@ func VerifC16_SyncMessageErrorBody() {
 	vnd.Quiesce()
 	vnd.Cover("C16.syncmsg.survived")
 }
+
+// VerifC08_Attestations3: three nodes, one attestation.
+func VerifC08_Attestations3() { c08Attestations(3, 1) }
